@@ -45,6 +45,31 @@ LOGGISH = {"debug_log", "info_log", "warning_log", "error_log", "debug", "info",
            "join", "split", "startswith", "endswith", "replace", "strip", "encode", "decode"}
 
 
+ATTR_SIBS = {}
+
+
+def build_attr_sibs(repo):
+    """Near-namesakes *within one class*: attributes stored on self / properties of the same class where one name is
+    `<prefix>_<other>` (`balls` / `available_balls`, `state` / `hw_state`): the realistic confusions."""
+    out = {}
+    for m in repo.modules.values():
+        for c in ast.walk(m.tree):
+            if not isinstance(c, ast.ClassDef):
+                continue
+            names = set()
+            for x in ast.walk(c):
+                if isinstance(x, ast.Attribute) and isinstance(x.ctx, ast.Store) and isinstance(x.value, ast.Name) and x.value.id == 'self':
+                    names.add(x.attr)
+                if isinstance(x, ast.FunctionDef) and any(isinstance(d, ast.Name) and d.id == 'property' for d in x.decorator_list):
+                    names.add(x.name)
+            for a in names:
+                for b in names:
+                    if a != b and not a.startswith('__') and (b.endswith('_' + a.lstrip('_')) or a.endswith('_' + b.lstrip('_'))):
+                        out.setdefault(a, set()).add(b)
+    ATTR_SIBS.clear()
+    ATTR_SIBS.update({k: sorted(v) for k, v in out.items()})
+
+
 class Site:
     __slots__ = ("kind", "start", "end", "new", "line", "desc")
 
@@ -201,6 +226,12 @@ def sites_in(func_node, btext, offs):
                     alts = [1, 100]
                 for a in alts:
                     add("CONST", n, repr(a), "%r -> %r" % (v, a))
+        if isinstance(n, ast.Attribute) and isinstance(n.ctx, ast.Load) and ATTR_SIBS.get(n.attr):
+            # ATTR: an attribute read replaced by its near-namesake (`balls` <-> `available_balls`, `state` <-> `hw_state`)
+            for b in ATTR_SIBS[n.attr][:2]:
+                m = copy.copy(n)
+                m.attr = b
+                add("ATTR", n, _u(m), "read `.%s` instead of `.%s` in `%s`" % (b, n.attr, _u(n)[:40]))
         if isinstance(n, ast.Call) and isinstance(n.func, ast.Attribute) and n.func.attr not in LOGGISH:
             # STR: a string literal handed to a call as a *name* (delay name, event name, handler / dict key): names must agree
             # between the site that creates and the site that looks up
@@ -293,6 +324,8 @@ def _run_one(i):
 
 
 def survey(props, repo, funcs=None, jobs=16, kinds=None):
+    if not ATTR_SIBS:
+        build_attr_sibs(repo)
     if isinstance(props, str):
         props = [props]
     analysed, base_keys = set(), set()
